@@ -216,6 +216,21 @@ class Parser:
                 else:
                     buf.back(self.expand_macro(buf, tok, False))
                 continue
+            # NB: verbatim text must be tested before all comparisons
+            # of tok.txt, it may read '$' or '{'
+            elif type(tok) is defs.VerbatimToken:
+                if tok.environ:
+                    # for Environ() entry in Parameters.environment_defs
+                    buf.next()
+                    buf.back(self.expand_verb_env_token(tok))
+                    continue
+                else:
+                    out.append(defs.ActionToken(tok.pos))
+                    # NB: token may stem from a macro body (fixed position)
+                    out.append(defs.TextToken(tok.pos, tok.txt,
+                                                pos_fix=tok.pos_fix))
+                buf.next()
+                continue
             elif tok.txt == '$' or tok.txt == '\\(':
                 out += self.mathparser.expand_inline_math(buf, tok)
                 continue
@@ -246,17 +261,6 @@ class Parser:
                 out.append(defs.ActionToken(tok.pos))
                 txt = self.parms.special_tokens[tok.txt]
                 out.append(defs.TextToken(tok.pos, txt))
-            elif type(tok) is defs.VerbatimToken:
-                if tok.environ:
-                    # for Environ() entry in Parameters.environment_defs
-                    buf.next()
-                    buf.back(self.expand_verb_env_token(tok))
-                    continue
-                else:
-                    out.append(defs.ActionToken(tok.pos))
-                    # NB: token may stem from a macro body (fixed position)
-                    out.append(defs.TextToken(tok.pos, tok.txt,
-                                                pos_fix=tok.pos_fix))
             elif type(tok) is defs.LanguageToken:
                 if self.parms.multi_language:
                     self.parms.change_parser_lang(tok)
